@@ -59,9 +59,9 @@ func (v *pathVisitor) Visit(n ast.Node) ast.Visitor {
 	if v.prune[id] {
 		return nil
 	}
-	return v
+	return v.with("<Visit>") // a fresh visitor from every callback: a dropped return value shows in the chain
 }
-func (v *pathVisitor) VisitMany(ns []ast.Node) ast.Visitor { return v }
+func (v *pathVisitor) VisitMany(ns []ast.Node) ast.Visitor { return v.with("<VisitMany>") }
 func (v *pathVisitor) Field(name string) ast.Visitor       { return v.with(name) }
 func (v *pathVisitor) Index(i int) ast.Visitor             { return v.with("#" + strconv.Itoa(i)) }
 
